@@ -10,6 +10,7 @@ import (
 	"errors"
 	"fmt"
 	"io"
+	"io/ioutil"
 	"math/rand"
 	"strings"
 	"testing/iotest"
@@ -107,6 +108,7 @@ func checkC06(c *Ctx) {
 		"the payload in one Read, or more than one message, or a non-zero start counter. distinct = distinct canonical model lines")
 	c.Assume("the AEAD and HKDF are parameters of the model (hypothesis open∘seal = id, tag 16 bytes); the reference evaluation uses golang.org/x/crypto directly")
 	c.Assume("frame counters other than 0 are installed by reflection on the unexported uint64 fields (as hc's own tests do in-package)")
+	c06Queued(c)
 
 	var cases []c06Case
 	quickLens := map[int]bool{}
@@ -406,4 +408,68 @@ func modCnt(s string) string {
 		}
 	}
 	return strings.Join(f, " ")
+}
+
+// c06Queued: several messages are encrypted before any of the returned readers is drained (messages queued, then sent;
+// or a big message still being sent while a notification is encrypted). Each returned reader must still yield exactly
+// the frames of its own message.
+func c06Queued(c *Ctx) {
+	for i := 0; i < c.Pick(40, 400); i++ {
+		id := c.CaseID("queued", i)
+		if c.Skip(id) {
+			continue
+		}
+		r := c.CaseRng("queued", i)
+		pair := newSessPair(r)
+		n := 2 + r.Intn(4)
+		var payloads [][]byte
+		var outs []io.Reader
+		ctr := uint64(0)
+		var want [][]byte
+		msg, pan := safely(func() {
+			for k := 0; k < n; k++ {
+				p := randBytes(r, c06BiasedLen(r, 3000))
+				payloads = append(payloads, p)
+				out, err := pair.server.Encrypt(bytes.NewReader(p))
+				if err != nil {
+					c.Violate("Encrypt returns an error for a well-behaved reader", id, hx(p), "nil", err.Error())
+					return
+				}
+				outs = append(outs, out)
+				w, frames := refEncrypt(pair.readKey, ctr, p)
+				ctr += uint64(len(frames))
+				want = append(want, w)
+				// sometimes a part of the previous message is read before the next one is encrypted
+				if k > 0 && r.Intn(3) == 0 {
+					buf := make([]byte, 1+r.Intn(40))
+					nn, _ := outs[k-1].Read(buf)
+					if !bytes.HasPrefix(want[k-1], buf[:nn]) {
+						c.Violate("ciphertext of a queued message is damaged by a later Encrypt call", id, fmt.Sprintf("message %d of %d", k-1, n), "its own frames", "different bytes")
+					}
+					want[k-1] = want[k-1][nn:]
+				}
+			}
+			for k := 0; k < n; k++ {
+				got, _ := ioutil.ReadAll(outs[k])
+				if !bytes.Equal(got, want[k]) {
+					c.Violate("ciphertext of a queued message is damaged by a later Encrypt call", id,
+						map[string]interface{}{"message": k, "messages": n, "lengths": lensOf(payloads)}, fmt.Sprintf("%d bytes", len(want[k])), fmt.Sprintf("%d bytes", len(got)))
+					return
+				}
+			}
+		})
+		if pan {
+			c.Violate("Encrypt/Decrypt panics", id, id, "no panic", msg)
+		}
+		c.Count(fmt.Sprint("queued/", lensOf(payloads)), true, "stream:queued")
+		c.Trace()
+	}
+}
+
+func lensOf(ps [][]byte) []int {
+	var l []int
+	for _, p := range ps {
+		l = append(l, len(p))
+	}
+	return l
 }
